@@ -58,6 +58,9 @@ pub struct Cache {
     mask_index: usize,
     filter_index: usize,
     image_index: usize,
+
+    // Number of marker instances created inside of other markers.
+    pub(crate) nested_marker_instances: usize,
 }
 
 impl Cache {
@@ -79,6 +82,8 @@ impl Cache {
             mask_index: 0,
             filter_index: 0,
             image_index: 0,
+
+            nested_marker_instances: 0,
         }
     }
 
